@@ -134,6 +134,22 @@ CLAIMS['C15'] = dict(
          "wrappers, slist via the initialiser's stores, dlist via a drain loop that exits only under size == 0).",
     technique="path-sensitive typestate (hand-off state, walker protocol) + dominance + init/clear sibling agreement over LLVM IR")
 
+CLAIMS['C08'] = dict(
+    text="Decides the map's own contract on every path of the code as written (the tree underneath is C01/C02's business): (P1) "
+         "insert distinguishes found / new / allocation-failed and in each case performs exactly the documented effects and return "
+         "code (path-sensitive typestate over call events); (P2) erase-by-key erases only a found entry, returns 0 / -1 accordingly "
+         "and reports a detached iterator, erase-by-iterator unlinks then frees that same node once; (P3) stored key/value pointers are "
+         "written only at node creation; (P4) the insert hint is the parent reported by the find on the same key with no mutation in "
+         "between; (P5) clear = C15's map instance.",
+    technique="path-sensitive typestate over call events + field-effect rule + dominance over LLVM IR")
+CLAIMS['C11'] = dict(
+    text="Thin by design: decides only clauses with a type- or shape-level necessary condition: (X1) no size_t count/index is "
+         "narrowed in the raw-array routines; (X2) every algorithm selector reaches a sort of the caller's array and the default "
+         "re-dispatches to an explicit case (terminates); (X3) the sift-down reads computed child elements only under child < count; "
+         "(X4) linear find returns the ascending loop's index under cmp == 0, else -1. 'Sorted permutation', 'search finds iff "
+         "present' and partition bounds are NOT decided.",
+    technique="taint + truncation rule, switch coverage, dominating facts over LLVM IR; enumerators from the AST")
+
 NA = {
     'C02': "inductive colour/black-height invariant over an unbounded pointer structure; needs shape/separation reasoning that no static analyser available here provides (DESIGN.md 4/C02)",
     'C07': "heap order and completeness are inductive invariants tying pointer shape to size arithmetic; not expressible as dataflow/typestate/effects (DESIGN.md 4/C07)",
